@@ -42,7 +42,7 @@ CMPOPS = {"Eq": "CEq", "NotEq": "CNe", "Lt": "CLt", "LtE": "CLe", "Gt": "CGt", "
 # functions / classes whose shape is pinned
 SHAPED = [
     "IdentifierReplacer", "DocstringRemover", "_convert_unaryop", "_convert_binop", "_convert_attribute",
-    "_convert_constant", "_convert_ifexp", "_convert_direct_call", "_convert_library_call", "_convert_call",
+    "_convert_constant", "_convert_ifexp", "_unary_call", "_convert_direct_call", "_convert_library_call", "_convert_call",
     "_convert_compare_op", "_convert_compare", "_convert_node", "_handle_body", "_tree_to_sbml", "_sbmlify_fn",
     "_escape_non_alphanumeric", "_convert_id_to_sbml", "_create_sbml_variables", "_create_sbml_derived_variables",
     "_create_derived_parameter", "_create_sbml_parameters", "_create_sbml_derived_parameters",
@@ -183,12 +183,29 @@ def dict_table(tree: ast.Module, name: str) -> list[tuple[str, str]] | None:
     return None
 
 
+def qualifier_table(tree: ast.Module) -> list[tuple[str, int]] | None:
+    """UNARY_QUALIFIER = {libsbml.AST_*: <int>}: leading qualifier child of a table-driven unary call; [] if absent."""
+    for node in tree.body:
+        if isinstance(node, ast.Assign) and len(node.targets) == 1 and ast.unparse(node.targets[0]) == "UNARY_QUALIFIER":
+            if not isinstance(node.value, ast.Dict):
+                return None
+            out = []
+            for k, v in zip(node.value.keys, node.value.values):
+                if k is None or kind_of(k) == "K_OTHER" or not (isinstance(v, ast.Constant) and type(v.value) is int):
+                    return None
+                out.append((kind_of(k), v.value))
+            if len({k for k, _ in out}) != len(out):
+                return None
+            return out
+    return []
+
+
 def extract(src_path: Path | None = None) -> dict:
     path = src_path or (common.REPO / "src/mxlpy/sbml/_export.py")
     facts: dict = {
         "unary": None, "binary": None, "nary": None, "unop": None, "binop": None, "cmpop": None,
         "ifexp_order": ["CUnknownChild"], "compare": "CmpUnknown", "call_fallback": "CallUnknown",
-        "call_arity": False, "call_kw_reject": False, "lib_parents": [], "attr_consts": [],
+        "call_arity": False, "call_kw_reject": False, "unary_qual": None, "lib_parents": [], "attr_consts": [],
         "derived_role": "RoleUnknown", "num_stoich": "NsUnknown", "ia_setter": "IaUnknown",
         "shapes_ok": False, "unrecognised": [],
     }  # fmt: skip
@@ -245,6 +262,17 @@ def extract(src_path: Path | None = None) -> dict:
         facts["call_fallback"], facts["call_arity"] = "CallAnonymous", False
     elif vd == 1 and vl == 1:
         facts["call_fallback"], facts["call_arity"] = "CallRaise", True
+    elif vd == 2 and vl == 2:
+        facts["call_fallback"], facts["call_arity"] = "CallRaise", True
+    # leading qualifier child of unary table calls (log10 = log with logbase 10): only through _unary_call
+    vu = variant.get("_unary_call")
+    qual = qualifier_table(tree)
+    if vd == 2 and vl == 2 and vu == 1 and qual is not None:
+        facts["unary_qual"] = qual
+    elif vd in (0, 1) and vl in (0, 1) and vu == -1 and qual == []:
+        facts["unary_qual"] = []
+    else:
+        facts["unrecognised"].append("unary qualifier mechanism")
     if vk == 1:
         facts["call_kw_reject"] = True
     if variant.get("_convert_attribute") is not None:
@@ -298,6 +326,11 @@ def to_coq(f: dict) -> str:
             return f"[({unknown}, K_OTHER)]"
         return common.clist(f"({k}, {v})" for k, v in tab)
 
+    def qtab(tab):
+        if tab is None:
+            return "[(K_OTHER, 0%Z)]"
+        return common.clist(f"({k}, {common.cz(v)})" for k, v in tab)
+
     def stab(tab):
         if tab is None:
             return '[("?"%string, K_OTHER)]'
@@ -312,6 +345,7 @@ def to_coq(f: dict) -> str:
         f"  {stab(f['unary'])}\n  {stab(f['binary'])}\n  {stab(f['nary'])}\n"
         f"  {optab(f['unop'], 'UInvert')}\n  {optab(f['binop'], 'BOtherBin')}\n  {optab(f['cmpop'], 'COtherCmp')}\n"
         f"  {common.clist(f['ifexp_order'])}\n  {f['compare']} {f['call_fallback']} {common.cbool(f['call_arity'])} {common.cbool(f['call_kw_reject'])}\n"
+        f"  {qtab(f['unary_qual'])}\n"
         f"  {common.clist(common.cstr(p) for p in f['lib_parents'])}\n"
         f"  {common.clist('(' + common.cstr(k) + ', ' + v + ')' for k, v in f['attr_consts'])}\n"
         f"  {f['derived_role']} {f['num_stoich']} {f['ia_setter']} {common.cbool(f['shapes_ok'])}.\n"
